@@ -14,10 +14,12 @@ import (
 	"encoding/json"
 	"encoding/pem"
 	"fmt"
+	"runtime/debug"
 	"sort"
 	"strings"
 
 	"pgregory.net/rapid"
+	"verif.local/h"
 	"verif.local/h/jsonmut"
 )
 
@@ -424,4 +426,17 @@ func ApplyBytes(b []byte, muts []ByteMut, chunk int) []byte {
 		}
 	}
 	return out
+}
+
+// Setup runs fixture-building code: a panic in there is the harness's problem (inconclusive), never a violation.
+func Setup(x *h.Ctx, what string, fn func()) {
+	defer func() {
+		if r := recover(); r != nil {
+			if fmt.Sprintf("%T", r) == "h.harnessError" {
+				panic(r)
+			}
+			x.Fatalf("panic while building fixture (%s): %v\n%s", what, r, debug.Stack())
+		}
+	}()
+	fn()
 }
